@@ -488,7 +488,15 @@ func freeHash(l []string) (d string, err error, crash string) {
 				done <- res{p: fmt.Sprint(r)}
 			}
 		}()
+		given := append([]string{}, l...)
 		d, err := hash.New().Hash(l)
+		for i := range given {
+			if i >= len(l) || l[i] != given[i] {
+				// the caller's list is the caller's: a write to it races with every other reader of it
+				done <- res{p: fmt.Sprintf("Hash wrote to the list it was given (entry %d of %d was %q, is %q)", i, len(given), given[i], l[i])}
+				return
+			}
+		}
 		done <- res{d: d, err: err}
 	}()
 	select {
@@ -1195,7 +1203,7 @@ func schedCheck(prop, tier string) int {
 				run.Report(v)
 			}
 			run.Set("supplementary_race_pass", map[string]any{"hash_calls_under_race_detector": ro.Runs, "gomaxprocs": ro.Procs, "list_shapes": ro.Shapes,
-				"what": "the unmodified hash package, free-running, built with -race: empty / short / duplicate / directory / missing / dangling / unreadable lists and sizes NumCPU-1, NumCPU, NumCPU+1, 4*NumCPU and 1000 with a missing entry at front, middle and end; goroutine count must settle to the baseline. Supplementary only: it can add alarms backed by a race-detector report, it never decides the property"})
+				"what": "the unmodified hash package, free-running, built with -race: empty / short / duplicate / directory / missing / dangling / unreadable lists and sizes NumCPU-1, NumCPU, NumCPU+1, 4*NumCPU and 1000 with a missing entry at front, middle and end, each list hashed alone and then by four callers sharing the one slice; goroutine count must settle to the baseline. Supplementary only: it can add alarms backed by a race-detector report, it never decides the property"})
 		}
 	}
 	run.Set("states", int64(len(cfgs))+states)
